@@ -494,11 +494,54 @@ type prattDriver struct {
 	env     *zygo.Zlisp
 	traced  []any
 	initial []string // projections of the variables right after the reset
+	bound   bool     // the variables exist in the current interpreter
 }
 
-const prattReset = `(def a 3) (def b 5) (def c 2) (def d 7) (def p true) (def q false) (def i 0) (def j 0) (def v [10 20 30 40]) (def s [5 6 7 8]) (def w [[1 2] [3 4]]) (def u [(hash x: 7)]) (def h (hash x: 1 k: 2 y: (hash z: 5)))
-`
-const prattState = "[a b c d p q i j v s w u h]\n"
+// the global variables every block runs against and their initial values:
+//
+//	a=3 b=5 c=2 d=7 p=true q=false i=0 j=0 v=[10 20 30 40] s=[5 6 7 8] w=[[1 2] [3 4]]
+//	u=[{x:7}] h={x:1 k:2 y:{z:5}}
+var prattVars = []string{"a", "b", "c", "d", "p", "q", "i", "j", "v", "s", "w", "u", "h"}
+
+// initialValue builds a fresh initial value of variable k.
+func (d *prattDriver) initialValue(k int) zygo.Sexp {
+	env := d.env
+	in := func(n int64) zygo.Sexp { return &zygo.SexpInt{Val: n} }
+	arr := func(xs ...zygo.Sexp) zygo.Sexp { return &zygo.SexpArray{Val: xs, Env: env} }
+	hash := func(kv ...zygo.Sexp) zygo.Sexp {
+		h, err := zygo.MakeHash(kv, "hash", env)
+		if err != nil {
+			fatal("MakeHash: %v", err)
+		}
+		return h
+	}
+	key := func(n string) zygo.Sexp { return env.MakeSymbol(n) }
+	switch prattVars[k] {
+	case "a":
+		return in(3)
+	case "b":
+		return in(5)
+	case "c":
+		return in(2)
+	case "d":
+		return in(7)
+	case "p":
+		return &zygo.SexpBool{Val: true}
+	case "q":
+		return &zygo.SexpBool{Val: false}
+	case "i", "j":
+		return in(0)
+	case "v":
+		return arr(in(10), in(20), in(30), in(40))
+	case "s":
+		return arr(in(5), in(6), in(7), in(8))
+	case "w":
+		return arr(arr(in(1), in(2)), arr(in(3), in(4)))
+	case "u":
+		return arr(hash(key("x"), in(7)))
+	}
+	return hash(key("x"), in(1), key("k"), in(2), key("y"), hash(key("z"), in(5)))
+}
 
 func newPrattDriver() *prattDriver {
 	d := &prattDriver{}
@@ -507,6 +550,7 @@ func newPrattDriver() *prattDriver {
 }
 
 func (d *prattDriver) fresh() {
+	d.bound = false
 	d.env = zygo.NewZlisp()
 	d.env.StandardSetup()
 	d.env.AddFunction("tr", func(env *zygo.Zlisp, name string, args []zygo.Sexp) (zygo.Sexp, error) {
@@ -559,10 +603,10 @@ func (d *prattDriver) eval(text string) (any, any, any) {
 	if !d.clean() {
 		d.fresh()
 	}
-	if o := evalSafe(d.env, prattReset); o.Kind != "val" {
+	if !d.reset() {
 		d.fresh()
-		if o := evalSafe(d.env, prattReset); o.Kind != "val" {
-			fatal("reset failed: %v", o.Err)
+		if !d.reset() {
+			fatal("reset failed")
 		}
 	}
 	d.traced = []any{}
@@ -580,23 +624,11 @@ func (d *prattDriver) eval(text string) (any, any, any) {
 	return val, eff, st
 }
 
-var prattVars = []string{"a", "b", "c", "d", "p", "q", "i", "j", "v", "s", "w", "u", "h"}
-
 // stateDelta lists the global variables whose value differs from the value the reset gives them.
 func (d *prattDriver) stateDelta() any {
 	cur := d.readVars()
 	if cur == nil {
 		return []any{"unknown"}
-	}
-	if d.initial == nil {
-		d.fresh()
-		if o := evalSafe(d.env, prattReset); o.Kind != "val" {
-			fatal("reset failed: %v", o.Err)
-		}
-		d.initial = d.readVars()
-		if d.initial == nil {
-			fatal("cannot read the initial state")
-		}
 	}
 	out := []any{}
 	for k, name := range prattVars {
@@ -609,14 +641,48 @@ func (d *prattDriver) stateDelta() any {
 	return []any{"changed", out}
 }
 
-func (d *prattDriver) readVars() []string {
-	so := d.safe(prattState)
-	arr, ok := so.Val.(*zygo.SexpArray)
-	if so.Kind != "val" || !ok || len(arr.Val) != len(prattVars) {
-		return nil
+// reset binds every global variable whose value differs from its initial value to a fresh
+// initial value (through the embedding API: a (def u [(hash ...)]) over an existing binding
+// panics in the interpreter, and no text has to be parsed).
+func (d *prattDriver) reset() bool {
+	if !d.clean() {
+		return false
 	}
-	out := make([]string, len(prattVars))
-	for k, x := range arr.Val {
+	if d.initial == nil || !d.bound {
+		for k := range prattVars {
+			d.env.AddGlobal(prattVars[k], d.initialValue(k))
+		}
+		d.bound = true
+		if d.initial == nil {
+			d.initial = d.readVars()
+		}
+		return d.initial != nil
+	}
+	cur := d.readVars()
+	if cur == nil {
+		return false
+	}
+	for k := range prattVars {
+		if cur[k] != d.initial[k] {
+			d.env.AddGlobal(prattVars[k], d.initialValue(k))
+		}
+	}
+	return true
+}
+
+func (d *prattDriver) readVars() (out []string) {
+	defer func() {
+		if r := recover(); r != nil {
+			out = nil
+		}
+	}()
+	out = make([]string, len(prattVars))
+	for k, name := range prattVars {
+		x, ok := d.env.FindObject(name)
+		if !ok {
+			out[k] = "[\"unbound\"]"
+			continue
+		}
 		b, _ := json.Marshal(d.projVal(x))
 		out[k] = string(b)
 	}
